@@ -4,7 +4,7 @@
 //   HDR <md hex|-|empty> <ad hex|-|empty> -> "HDR <enc hex> <emd hex|-> <secret hex>"
 //   HDRDEC <auth> <enc hex> <emd hex|-|empty> <ad hex|-|empty> -> "OK:<secret hex>:<md hex|-|empty>" | NONE | ERR | PANIC | UNPARSABLE
 //   HDRSER <enc hex> <emd hex|-|empty>   -> "<serialized hex> <length() ok>"   ; HDRDE <hex> -> "<enc hex> <emd|->" | UNPARSABLE
-use cosmian_cover_crypt::{api::Covercrypt, traits::PkeAc, AccessPolicy, EncryptedHeader, EncryptionHint, QualifiedAttribute, XEnc};
+use cosmian_cover_crypt::{api::Covercrypt, traits::{KemAc, PkeAc}, AccessPolicy, EncryptedHeader, EncryptionHint, QualifiedAttribute, XEnc};
 use cosmian_crypto_core::{bytes_ser_de::Serializable, Aes256Gcm};
 use std::io::{BufRead, Write};
 #[path = "../common.rs"]
@@ -90,6 +90,32 @@ fn main() {
                         // share, a byte of a trap): no key may get anything out of it - in particular not another secret
                         if rep < 2 {
                             let eb = ct.0.serialize().unwrap().to_vec();
+                            // ... and its STRUCTURE altered: the list of shares cut to nothing (count byte 0, shares dropped) - the
+                            // object still parses; opening it must say "not authorized" or fail, never panic (a panic while the
+                            // generator is locked would leave the instance unusable), so a separate instance is used here
+                            {
+                                let cpos = 16 + 1 + eb[16] as usize * PT + 1;
+                                if eb[16] < 128 && cpos < eb.len() && eb[cpos] >= 1 && eb[cpos] < 128 {
+                                    let mut zb = eb[..cpos].to_vec(); zb.push(0);
+                                    if let Ok(me) = XEnc::deserialize(&zb) {
+                                        o += &format!("MXZ {ei};");
+                                        let cz = Covercrypt::default();
+                                        for (ki, k) in keys.iter().enumerate() {
+                                            let r1 = std::panic::catch_unwind(std::panic::AssertUnwindSafe(|| <Covercrypt as PkeAc<32, Aes256Gcm>>::decrypt(&cz, k, &(me.clone(), ct.1.clone())).map(|x| x.is_some())));
+                                            let cz2 = Covercrypt::default();
+                                            let h0 = EncryptedHeader { encapsulation: me.clone(), encrypted_metadata: hd.encrypted_metadata.clone() };
+                                            let r2 = std::panic::catch_unwind(std::panic::AssertUnwindSafe(|| h0.decrypt(&cz2, k, Some(b"ad")).map(|x| x.is_some())));
+                                            let cz3 = Covercrypt::default();
+                                            let r3 = std::panic::catch_unwind(std::panic::AssertUnwindSafe(|| cz3.decaps(k, &me).map(|x| x.is_some())));
+                                            for (layer, r) in [("pke", r1), ("header", r2), ("kem", r3)] {
+                                                match r { Err(_) => { o += &format!("MXT {ki} {ei} {layer}-without-shares PANIC;"); }
+                                                          Ok(Ok(true)) => { o += &format!("MXT {ki} {ei} {layer}-without-shares OPENED;"); }
+                                                          _ => {} }
+                                            }
+                                        }
+                                    }
+                                }
+                            }
                             for (what, pos) in [("tag", 3usize), ("tag-end", 15), ("trap", 20), ("last-share", eb.len() - 1), ("last-share-start", eb.len() - 32)] {
                                 let mut mb = eb.clone(); mb[pos] ^= 0x20;
                                 if let Ok(me) = XEnc::deserialize(&mb) {
